@@ -1,6 +1,7 @@
 import S2S.Model.Translate
 import S2S.Gen.TGBase
 import Driver.Util
+import Driver.TranslateVal
 /- Driver for engine "translate" (C12, C16): the path-level visitor model over the REGENERATED type graph. -/
 namespace Drv.Translate
 open S2S.Translate
@@ -41,6 +42,8 @@ def step (line : String) : String :=
     match parsePath rest with
     | some (_, p) => if translates S2S.Gen.TG.graph S2S.Gen.TG.tables p then "translated" else "missed"
     | none => "bad-op"
+  | "valns" :: _ => Drv.TranslateVal.step line   -- value-level ops (Driver/TranslateVal.lean)
+  | "valsa" :: _ => Drv.TranslateVal.step line
   | _ => "bad-op"
 
 end Drv.Translate
